@@ -13,6 +13,19 @@ from .formula import TRUE
 MAX_CANDIDATES = 4      # counterexamples kept per claim / obligation kind (from different paths)
 
 
+def _add_candidate(res, seen_cnt, key, rec):
+    """Keep at most MAX_CANDIDATES counterexamples per claim / obligation kind,
+    preferring models with moderate magnitudes (more likely to replay in float64)."""
+    cur = [f for f in res['failures'] if (f['kind'], f['name']) == key]
+    if len(cur) < MAX_CANDIDATES:
+        res['failures'].append(rec)
+        return
+    worst = min(cur, key=lambda f: f.get('quality', 0))
+    if rec.get('quality', 0) > worst.get('quality', 0):
+        res['failures'].remove(worst)
+        res['failures'].append(rec)
+
+
 def _short_tb(e):
     tb = traceback.extract_tb(e.__traceback__)
     fr = [f'{f.filename.split("/")[-1]}:{f.lineno}:{f.name}' for f in tb[-6:]]
@@ -152,12 +165,10 @@ def explore(mod_name, func_name, params, opts):
             d[c['verdict']] = d.get(c['verdict'], 0) + 1
             if c['verdict'] == 'sat':
                 path_ok = False
-                seen_cnt[c['name']] = seen_cnt.get(c['name'], 0) + 1
-                if seen_cnt[c['name']] <= MAX_CANDIDATES:
-                    seen_fail.add(c['name'])
-                    res['failures'].append({'kind': 'claim', 'name': c['name'],
-                                            'values': c.get('model'), 'detail': c.get('detail'),
-                                            'path': _log_repr(ctx.log)})
+                _add_candidate(res, seen_cnt, ('claim', c['name']),
+                               {'kind': 'claim', 'name': c['name'], 'values': c.get('model'),
+                                'detail': c.get('detail'), 'path': _log_repr(ctx.log),
+                                'quality': c.get('quality', 0)})
             elif c['verdict'] != 'unsat':
                 path_ok = False
                 if len(res['unknown']) < 20:
@@ -166,13 +177,10 @@ def explore(mod_name, func_name, params, opts):
             d = res['obligations'].setdefault(o['kind'], {'unsat': 0, 'sat': 0, 'unknown': 0})
             d[o['verdict']] = d.get(o['verdict'], 0) + 1
             if o['verdict'] == 'sat':
-                key = ('obl', o['kind'])
-                seen_cnt[key] = seen_cnt.get(key, 0) + 1
-                if seen_cnt[key] <= MAX_CANDIDATES:
-                    seen_fail.add(key)
-                    res['failures'].append({'kind': 'obligation', 'name': o['kind'],
-                                            'values': o.get('model'), 'detail': o.get('what'),
-                                            'path': _log_repr(ctx.log)})
+                _add_candidate(res, seen_cnt, ('obligation', o['kind']),
+                               {'kind': 'obligation', 'name': o['kind'], 'values': o.get('model'),
+                                'detail': o.get('what'), 'path': _log_repr(ctx.log),
+                                'quality': o.get('quality', 0)})
         if status == 'exception':
             key = ('exc', exc['type'], exc['tb'])
             if key not in seen_fail:
